@@ -189,3 +189,22 @@ Example C19_whole_field_refusal_happens :
   wstep VRepaired h (WAssign 0 3) = (h, Err ValueError)
   /\ snd (wstep VRepaired (fst (wstep VRepaired h (WCopy 3))) (WAssign 0 5)) = Ok RNone.
 Proof. vm_compute. split; reflexivity. Qed.
+
+(* ---- "comments that cannot be found": Comments.v (the claimer of interleaving_comments.py) ---------------------
+   A selective claim / unclaim that names a comment which is not there is refused with ValueError and the document -
+   tokens, order, claimed flags - is the one it was given (the seeded regression that cleared the flags inside the
+   scan loop is a different function: the correspondence of ./check C14 and this property's snapshot monitor see it). *)
+From AB Require Comments CommentsProofs CommentsRange CommentsRefuse.
+
+Theorem C19_unclaim_not_found_atomic : forall d items flt e d',
+  Comments.unclaim_inter d items flt = (Err e, d') -> d' = d /\ e = ValueError.
+Proof. exact CommentsRefuse.unclaim_inter_refused. Qed.
+
+Theorem C19_claim_not_found_atomic : forall d ph items mf ml flt e d',
+  NoDup (CommentsProofs.ids d) -> CommentsRange.has_tok_b d ph = true -> Comments.items_ordered_b d ph items = true ->
+  Comments.claimer_claim d ph items mf ml flt = (Err e, d') -> d' = d /\ e = ValueError.
+Proof. exact CommentsRefuse.claimer_claim_refused. Qed.
+
+Example C19_unclaim_refusal_happens :
+  exists d items, fst (Comments.unclaim_inter d items (Some (99 :: nil)%Z)) = Err ValueError.
+Proof. exact CommentsRefuse.unclaim_refusal_happens. Qed.
